@@ -8,6 +8,7 @@ package main
 
 import (
 	"bytes"
+	"encoding/json"
 	"fmt"
 	"io"
 	"net"
@@ -144,5 +145,86 @@ func c20CLI(c *Ctx, run *ev.Run) {
 		}
 		run.Distinct(fmt.Sprintf("c20cli:%d", limit))
 		run.Sample(map[string]any{"cli_results": len(rs), "scrape_bytes": len(txt)})
+	}
+}
+
+// c20Pump drives the real result pump of the attack command (processAttack,
+// through the in-module probe) with bursts of results handed over as fast as a
+// channel allows: every result written must also have been observed.
+func c20Pump(c *Ctx, run *ev.Run) {
+	dir, err := os.MkdirTemp("", "verif-c20pump-")
+	if err != nil {
+		run.Inconclusive(err.Error())
+		return
+	}
+	defer os.RemoveAll(dir)
+	type cmdT struct {
+		Op       string `json:"op"`
+		Results  int    `json:"results"`
+		ErrEvery int    `json:"err_every"`
+	}
+	cmds := []cmdT{{"pump", 100, 0}, {"pump", 5000, 3}, {"pump", 30000, 7}, {"pump", 1, 1}}
+	if !c.Quick() {
+		cmds = append(cmds, cmdT{"pump", 200000, 2}, cmdT{"pump", 60000, 0}, cmdT{"pump", 1025, 5}, cmdT{"pump", 2049, 1})
+	}
+	in, out := filepath.Join(dir, "in"), filepath.Join(dir, "out")
+	var sb bytes.Buffer
+	for _, cm := range cmds {
+		fmt.Fprintf(&sb, `{"op":%q,"results":%d,"err_every":%d}`+"\n", cm.Op, cm.Results, cm.ErrEvery)
+	}
+	_ = os.WriteFile(in, sb.Bytes(), 0o644)
+	ex := exec.Command(c.Bin("probe.test"), "-test.run", "^TestVerifProbe$", "-test.count=1")
+	ex.Env = append(os.Environ(), "VERIF_PROBE_IN="+in, "VERIF_PROBE_OUT="+out)
+	if b, err := ex.CombinedOutput(); err != nil {
+		run.Violate("C20/pump/probe-died", fmt.Sprintf("the result pump of the attack command crashed: %v: %s", err, tail(string(b), 1200)), map[string]any{"output": tail(string(b), 4000)})
+		return
+	}
+	data, err := os.ReadFile(out)
+	if err != nil {
+		run.Inconclusive(err.Error())
+		return
+	}
+	lines := bytes.Split(bytes.TrimSpace(data), []byte("\n"))
+	if len(lines) != len(cmds) {
+		run.Inconclusive(fmt.Sprintf("probe answered %d of %d pump commands", len(lines), len(cmds)))
+		return
+	}
+	for i, l := range lines {
+		var a struct {
+			Err           string  `json:"err"`
+			Panic         string  `json:"panic"`
+			Written       int     `json:"written"`
+			ObservedCount uint64  `json:"observed_count"`
+			ObservedIn    float64 `json:"observed_bytes_in"`
+			ObservedOut   float64 `json:"observed_bytes_out"`
+			ObservedFail  float64 `json:"observed_fail"`
+		}
+		if err := json.Unmarshal(l, &a); err != nil {
+			run.Inconclusive("bad probe answer")
+			continue
+		}
+		n := cmds[i].Results
+		var wantIn, wantOut, wantFail float64
+		for k := 0; k < n; k++ {
+			wantIn += float64(10 + k%5)
+			wantOut += float64(k % 3)
+			if cmds[i].ErrEvery > 0 && k%cmds[i].ErrEvery == 0 {
+				wantFail++
+			}
+		}
+		run.Eval(1)
+		run.Count("pump_runs", 1)
+		run.Count("pump_results_fed", int64(n))
+		det := map[string]any{"results_fed": n, "err_every": cmds[i].ErrEvery, "answer": json.RawMessage(l)}
+		switch {
+		case a.Err != "" || a.Panic != "":
+			run.Violate("C20/pump/error", fmt.Sprintf("result pump on %d results: err=%q panic=%q", n, a.Err, a.Panic), det)
+		case a.Written != n:
+			run.Violate("C20/pump/results-not-written", fmt.Sprintf("result pump was handed %d results and wrote %d", n, a.Written), det)
+		case a.ObservedCount != uint64(n) || a.ObservedIn != wantIn || a.ObservedOut != wantOut || a.ObservedFail != wantFail:
+			run.Violate("C20/pump/results-not-observed", fmt.Sprintf("the attack command's result pump was handed %d results: metrics report %d samples, bytes in %.0f (want %.0f), bytes out %.0f (want %.0f), failures %.0f (want %.0f)",
+				n, a.ObservedCount, a.ObservedIn, wantIn, a.ObservedOut, wantOut, a.ObservedFail, wantFail), det)
+		}
+		run.Distinct(fmt.Sprintf("pump:%d:%d", n, cmds[i].ErrEvery))
 	}
 }
